@@ -114,6 +114,7 @@ type Engine struct {
 	errType                                       types.Type
 	lockEvents                                    int
 	uniq                                          []uniqEntry
+	parGroups                                     int
 }
 
 type observation struct {
